@@ -65,6 +65,11 @@ Definition ptr_to (a : addr) (tv : tval) : bool :=
 Fixpoint occ (a : addr) (l : list tval) : nat :=
   match l with [] => 0 | tv :: r => (if ptr_to a tv then 1 else 0) + occ a r end.
 
+Lemma ptr_to_ptr : forall a k a', ptr_to a (k, VPtr a') = Nat.eqb a a'.
+Proof. reflexivity. Qed.
+Lemma ptr_to_inl : forall a k i, ptr_to a (k, VInl i) = false.
+Proof. reflexivity. Qed.
+
 Lemma occ_app : forall a l1 l2, occ a (l1 ++ l2) = occ a l1 + occ a l2.
 Proof. induction l1; intros; simpl; [reflexivity|]. rewrite IHl1. lia. Qed.
 
@@ -94,6 +99,18 @@ Proof.
   induction l as [|x r IH]; intros [|y r'] H; simpl in *; try discriminate; [reflexivity|].
   inversion H. unfold ptr_to. rewrite H1. f_equal. apply IH; assumption.
 Qed.
+
+Lemma occ_nil : forall a, occ a [] = 0.
+Proof. reflexivity. Qed.
+Lemma occ_cons_inl : forall a k i l, occ a ((k, VInl i) :: l) = occ a l.
+Proof. reflexivity. Qed.
+Lemma occ_cons_ptr : forall a k a' l, occ a ((k, VPtr a') :: l) = (if Nat.eqb a a' then 1 else 0) + occ a l.
+Proof. reflexivity. Qed.
+Lemma occ_cons : forall a tv l, occ a (tv :: l) = (if ptr_to a tv then 1 else 0) + occ a l.
+Proof. reflexivity. Qed.
+Arguments occ : simpl never.
+
+Ltac iflia := repeat match goal with |- context [if ?c then _ else _] => destruct c end; lia.
 
 (* ------------------------------------------------------------------ the invariant *)
 
@@ -232,10 +249,12 @@ Proof.
   split.
   - intros a0. specialize (Hocc a0). pose proof (heap_refs_upd_occ h a b' a0 Hb) as Hh.
     rewrite !occ_app in *. pose proof (HR a0) as HRa. rewrite occ_app in HRa.
-    destruct (Nat.eqb_spec a0 a) as [->|Hne].
-    + rewrite nth_error_upd_eq by (eapply nth_error_Some_lt; eauto).
+    destruct (Nat.eq_dec a0 a) as [Heq|Hne].
+    + subst a0. rewrite Nat.eqb_refl in Hocc.
+      rewrite nth_error_upd_eq by (eapply nth_error_Some_lt; eauto).
       rewrite Hb, Hlive in HRa. destruct (b_freed b'); lia.
-    + rewrite nth_error_upd_neq by congruence.
+    + rewrite (proj2 (Nat.eqb_neq a0 a) Hne) in Hocc.
+      rewrite nth_error_upd_neq by congruence.
       destruct (nth_error h a0) as [b0|]; [destruct (b_freed b0)|]; lia.
   - apply Forall_forall. intros x Hx. apply in_app_or in Hx.
     eapply typed_stable; [exact TS|]. rewrite Forall_forall in HT, HT'.
@@ -254,10 +273,10 @@ Proof.
   intros E h k t sh kids [HR HT].
   assert (tags_stable h (h ++ [mkB t 1 sh kids false])) as TS by apply tags_stable_app.
   split.
-  - intros a0. specialize (HR a0). rewrite heap_refs_snoc. simpl. rewrite !occ_app in *. simpl.
-    unfold ptr_to at 1; simpl.
-    destruct (Nat.eqb_spec a0 (length h)) as [->|Hne].
-    + rewrite nth_error_app2 by lia. rewrite Nat.sub_diag. simpl.
+  - intros a0. specialize (HR a0). rewrite heap_refs_snoc. cbn [app b_kids].
+    rewrite occ_cons_ptr. rewrite !occ_app in *.
+    destruct (Nat.eqb_spec a0 (length h)) as [Heq|Hne].
+    + subst a0. rewrite nth_error_app2 by lia. rewrite Nat.sub_diag. simpl.
       rewrite (proj2 (nth_error_None h (length h))) in HR by lia. lia.
     + destruct (lt_dec a0 (length h)).
       * rewrite nth_error_app1 by lia. destruct (nth_error h a0) as [b0|]; [destruct (b_freed b0)|]; lia.
@@ -282,8 +301,8 @@ Lemma inv_h_retype : forall E h k k' v,
   inv_h ((k, v) :: E) h -> typed h (k', v) -> inv_h ((k', v) :: E) h.
 Proof.
   intros E h k k' v [HR HT] Ht. split.
-  - intros a0. specialize (HR a0). simpl in *. exact HR.
-  - simpl in *. inversion HT; subst. constructor; assumption.
+  - intros a0. specialize (HR a0). cbn [app] in *. rewrite occ_cons in *. exact HR.
+  - cbn [app] in *. inversion HT; subst. constructor; assumption.
 Qed.
 
 Lemma typed_as_value : forall h tv, typed h tv -> typed h (as_value tv).
@@ -310,3 +329,420 @@ Proof.
     apply Forall_forall. intros x Hx. apply in_map_iff in Hx. destruct Hx as [y [<- Hy]].
     apply typed_as_value. rewrite Forall_forall in H1. auto.
 Qed.
+
+(* ------------------------------------------------------------------ the primitives *)
+
+Lemma heap_refs_upd_eq : forall h a b b', nth_error h a = Some b -> b_kids b' = b_kids b ->
+  heap_refs (upd a b' h) = heap_refs h.
+Proof.
+  unfold heap_refs. induction h as [|z t IH]; intros a b b' Hb E; [destruct a; discriminate|].
+  destruct a; simpl in *.
+  - inversion Hb; subst. rewrite E. reflexivity.
+  - f_equal. eapply IH; eauto.
+Qed.
+
+Lemma Forall_typed_sub : forall h R l, Forall (typed h) R -> incl l R -> Forall (typed h) l.
+Proof. intros h R l H I. apply Forall_forall. intros x Hx. rewrite Forall_forall in H. auto. Qed.
+
+Section Prims.
+Variable mx : N.
+
+Lemma get_ok : forall E h k a, inv_h E h -> In (k, VPtr a) (E ++ heap_refs h) ->
+  exists b, h_get a h = Ok (b, h) /\ nth_error h a = Some b /\ b_freed b = false /\
+            b_rc b = N.of_nat (occ a (E ++ heap_refs h)) /\ 0 < occ a (E ++ heap_refs h).
+Proof.
+  intros E h k a [HR _] HI. destruct (ref_live _ _ HR HI) as [b [Hb [Hf [Hrc Hpos]]]].
+  exists b. unfold h_get. rewrite Hb, Hf. auto.
+Qed.
+
+Lemma read_spec : forall E h tv, inv_h E h -> In tv (E ++ heap_refs h) ->
+  exists o, h_read tv h = Ok (o, h) /\
+    match o with
+    | Some b => exists a, snd tv = VPtr a /\ nth_error h a = Some b /\ b_freed b = false
+    | None => exists i, snd tv = VInl i
+    end.
+Proof.
+  intros E h [k v] I HI. unfold h_read; simpl. destruct v as [i|a].
+  - exists None. split; [reflexivity|eauto].
+  - destruct (get_ok _ _ I HI) as [b [Hg [Hb [Hf _]]]]. exists (Some b).
+    unfold hbind. rewrite Hg. split; [reflexivity|eauto].
+Qed.
+
+Lemma clone1_spec : forall E h tv, inv_h E h -> In tv (E ++ heap_refs h) ->
+  hspec (h_clone1 mx tv) h (fun _ h' => inv_h (tv :: E) h' /\ tags_stable h h' /\ heap_refs h' = heap_refs h).
+Proof.
+  intros E h [k v] I HI. unfold h_clone1; simpl. destruct v as [i|a].
+  - apply hspec_ret. split; [|split; [apply tags_stable_refl|reflexivity]].
+    destruct I as [HR HT]. split.
+    + intros a0. specialize (HR a0). cbn [app]. rewrite occ_cons_inl. exact HR.
+    + cbn [app]. constructor; [|assumption]. rewrite Forall_forall in HT. auto.
+  - destruct (get_ok _ _ I HI) as [b [Hg [Hb [Hf [Hrc Hpos]]]]].
+    unfold h_inc, hspec, hbind. rewrite Hg.
+    destruct (N.eqb_spec (b_rc b) 0) as [Hz|Hz]; [lia|].
+    destruct (N.leb mx (b_rc b)); [exact Logic.I|].
+    unfold h_set. simpl.
+    assert (heap_refs (upd a (set_rc b (b_rc b + 1)) h) = heap_refs h) as HE
+      by (eapply heap_refs_upd_eq; eauto).
+    split; [|split; [eapply tags_stable_upd; eauto|exact HE]].
+    eapply inv_h_upd with (b := b) (dm := 0) (dp := 1); eauto.
+    + intros a0. cbn [b_kids set_rc app]. rewrite occ_cons_ptr. iflia.
+    + simpl. rewrite Hf. lia.
+    + cbn [b_kids set_rc app]. destruct I as [_ HT]. rewrite Forall_forall in HT. constructor; [auto|].
+      eapply Forall_typed_sub; [apply Forall_forall; exact HT|].
+      intros x Hx. apply in_app_or in Hx. apply in_or_app. destruct Hx; [auto|].
+      right. eapply kids_in_heap_refs; eauto.
+Qed.
+
+Lemma clone_all_spec : forall l E h, inv_h E h -> incl l (E ++ heap_refs h) ->
+  hspec (h_clone_all mx l) h (fun _ h' => inv_h (l ++ E) h' /\ tags_stable h h' /\ heap_refs h' = heap_refs h).
+Proof.
+  induction l as [|tv r IH]; intros E h I HI; simpl.
+  - apply hspec_ret. split; [assumption|split; [apply tags_stable_refl|reflexivity]].
+  - apply hspec_bind. eapply hspec_weaken; [apply clone1_spec; [exact I|apply HI; left; reflexivity]|].
+    intros _ h1 [I1 [T1 R1]]. simpl.
+    eapply hspec_weaken; [apply (IH (tv :: E) h1 I1)|].
+    + intros x Hx. simpl. right. rewrite R1. apply HI. right. exact Hx.
+    + intros _ h2 [I2 [T2 R2]]. simpl. split; [|split].
+      * eapply inv_h_perm; [|exact I2]. symmetry. apply Permutation_middle.
+      * eapply tags_stable_trans; eauto.
+      * congruence.
+Qed.
+
+Lemma alloc_spec : forall E h k t sh kids, inv_h (kids ++ E) h ->
+  hspec (h_alloc k t sh kids) h (fun tv h' =>
+    inv_h (tv :: E) h' /\ tags_stable h h' /\ heap_refs h' = heap_refs h ++ kids /\
+    tv = (if tag_ok k t then k else kind_of_tag t, VPtr (length h)) /\
+    nth_error h' (length h) = Some (mkB t 1 sh kids false) /\
+    (forall a b, nth_error h a = Some b -> nth_error h' a = Some b)).
+Proof.
+  intros. unfold hspec, h_alloc. split; [apply inv_h_alloc; assumption|].
+  split; [apply tags_stable_app|]. split; [apply heap_refs_snoc|]. split; [reflexivity|]. split.
+  - rewrite nth_error_app2 by lia. rewrite Nat.sub_diag. reflexivity.
+  - intros a b Hb. rewrite nth_error_app1; [assumption|eapply nth_error_Some_lt; eauto].
+Qed.
+
+(* removing an inline handle from the outside references *)
+Lemma inv_h_drop_inl : forall E h k i, inv_h ((k, VInl i) :: E) h -> inv_h E h.
+Proof.
+  intros E h k i [HR HT]. split.
+  - intros a0. specialize (HR a0). cbn [app] in HR. rewrite occ_cons_inl in HR. exact HR.
+  - cbn [app] in HT. inversion HT; assumption.
+Qed.
+
+Lemma length_heap_refs_upd : forall h a b b', nth_error h a = Some b ->
+  length (heap_refs (upd a b' h)) + length (b_kids b) = length (heap_refs h) + length (b_kids b').
+Proof.
+  intros. pose proof (Permutation_length (heap_refs_upd_perm h a b' H)) as P.
+  rewrite !app_length in P. exact P.
+Qed.
+
+Lemma drop_loop_spec : forall fuel pend E h,
+  inv_h (pend ++ E) h -> length pend + length (heap_refs h) < fuel ->
+  exists h', drop_loop fuel pend h = Ok h' /\ inv_h E h' /\ tags_stable h h'.
+Proof.
+  induction fuel as [|f IH]; intros pend E h I Hf; [lia|].
+  destruct pend as [|[k v] rest].
+  - exists h. simpl. split; [reflexivity|split; [exact I|apply tags_stable_refl]].
+  - simpl drop_loop. destruct v as [i|a]; simpl snd; cbv iota.
+    + apply (IH rest E h).
+      * simpl in I. eapply inv_h_drop_inl; eauto.
+      * simpl in Hf. lia.
+    + assert (In (k, VPtr a) ((((k, VPtr a) :: rest) ++ E) ++ heap_refs h)) as HI by (simpl; auto).
+      destruct (get_ok _ _ I HI) as [b [_ [Hb [Hfr [Hrc Hpos]]]]].
+      rewrite Hb, Hfr.
+      destruct (N.eqb_spec (b_rc b) 0) as [Hz|Hz]; [lia|].
+      destruct (N.eqb_spec (b_rc b) 1) as [H1|H1].
+      * (* last handle: the block is freed and its payload dropped *)
+        assert (inv_h ((b_kids b ++ rest) ++ E) (upd a (freed_block b) h)) as I'.
+        { eapply inv_h_upd with (b := b) (dm := 1) (dp := 0); eauto.
+          - intros a0. cbn [b_kids freed_block app]. rewrite app_nil_r. rewrite <- !app_assoc.
+            rewrite occ_cons_ptr. rewrite !occ_app. iflia.
+          - simpl. lia.
+          - cbn [b_kids freed_block]. rewrite app_nil_r. destruct I as [_ HT].
+            eapply Forall_typed_sub; [exact HT|].
+            intros x Hx. rewrite <- app_assoc in Hx. apply in_app_or in Hx. destruct Hx as [Hx|Hx].
+            + apply in_or_app. right. eapply kids_in_heap_refs; eauto.
+            + apply in_or_app. left. simpl. right. exact Hx. }
+        destruct (IH (b_kids b ++ rest) E (upd a (freed_block b) h) I') as [h' [Hd [Ih' Th']]].
+        { pose proof (length_heap_refs_upd h a (freed_block b) Hb) as L. simpl in L, Hf.
+          rewrite app_length. lia. }
+        exists h'. split; [exact Hd|split; [exact Ih'|]].
+        eapply tags_stable_trans; [eapply (@tags_stable_upd h a b (freed_block b)); [exact Hb|reflexivity]|exact Th'].
+      * (* other handles remain *)
+        assert (inv_h (rest ++ E) (upd a (set_rc b (b_rc b - 1)) h)) as I'.
+        { eapply inv_h_upd with (b := b) (dm := 1) (dp := 0); eauto.
+          - intros a0. cbn [b_kids set_rc app]. rewrite occ_cons_ptr. iflia.
+          - simpl. rewrite Hfr. lia.
+          - cbn [b_kids set_rc]. destruct I as [_ HT].
+            eapply Forall_typed_sub; [exact HT|].
+            intros x Hx. apply in_app_or in Hx. destruct Hx as [Hx|Hx].
+            + apply in_or_app. left. simpl. right. exact Hx.
+            + apply in_or_app. right. eapply kids_in_heap_refs; eauto. }
+        destruct (IH rest E (upd a (set_rc b (b_rc b - 1)) h) I') as [h' [Hd [Ih' Th']]].
+        { rewrite (heap_refs_upd_eq h a (set_rc b (b_rc b - 1)) Hb) by reflexivity. simpl in Hf. lia. }
+        exists h'. split; [exact Hd|split; [exact Ih'|]].
+        eapply tags_stable_trans; [eapply (@tags_stable_upd h a b (set_rc b (b_rc b - 1))); [exact Hb|reflexivity]|exact Th'].
+Qed.
+
+Lemma drop_spec : forall l E h, inv_h (l ++ E) h ->
+  hspec (h_drop l) h (fun _ h' => inv_h E h' /\ tags_stable h h').
+Proof.
+  intros l E h I. unfold hspec, h_drop.
+  destruct (@drop_loop_spec (S (length l + length (heap_refs h))) l E h I) as [h' [Hd [I' T']]]; [lia|].
+  rewrite Hd. auto.
+Qed.
+
+(* dropping one handle of a block that has others only decrements *)
+Lemma drop_one_shared : forall h k a b, nth_error h a = Some b -> b_freed b = false ->
+  b_rc b <> 0%N -> b_rc b <> 1%N ->
+  h_drop (@cons tval (k, VPtr a) (@nil tval)) h = Ok (tt, upd a (set_rc b (b_rc b - 1)) h).
+Proof.
+  intros h k a b Hb Hf H0 H1. unfold h_drop. simpl. rewrite Hb, Hf.
+  destruct (N.eqb_spec (b_rc b) 0); [contradiction|].
+  destruct (N.eqb_spec (b_rc b) 1); [contradiction|]. reflexivity.
+Qed.
+
+Definition unique_in (h : list block) (tv : tval) : Prop :=
+  match snd tv with
+  | VPtr a => exists b, nth_error h a = Some b /\ b_freed b = false /\ b_rc b = 1%N
+  | VInl _ => True
+  end.
+
+Lemma typed_kind_alloc : forall h k a b, typed h (k, VPtr a) -> nth_error h a = Some b ->
+  (if tag_ok k (b_tag b) then k else kind_of_tag (b_tag b)) = k.
+Proof.
+  intros h k a b [b' [Hb' Hk]] Hb. simpl in *. rewrite Hb in Hb'. inversion Hb'; subst. rewrite Hk. reflexivity.
+Qed.
+
+Lemma make_unique_spec : forall E h tv, inv_h (tv :: E) h ->
+  hspec (h_make_unique mx tv) h (fun tv' h' =>
+    inv_h (tv' :: E) h' /\ tags_stable h h' /\ unique_in h' tv' /\ fst tv' = fst tv).
+Proof.
+  intros E h [k v] I. unfold h_make_unique; cbn [snd fst]. destruct v as [i|a].
+  - apply hspec_ret. split; [exact I|split; [apply tags_stable_refl|split; [exact Logic.I|reflexivity]]].
+  - assert (In (k, VPtr a) (((k, VPtr a) :: E) ++ heap_refs h)) as HI by (simpl; auto).
+    destruct (get_ok _ _ I HI) as [b [Hg [Hb [Hf [Hrc Hpos]]]]].
+    unfold hspec at 1, hbind at 1. rewrite Hg.
+    destruct (N.eqb_spec (b_rc b) 1) as [H1|H1].
+    + simpl. split; [exact I|split; [apply tags_stable_refl|split; [|reflexivity]]].
+      unfold unique_in; simpl. eauto.
+    + apply hspec_bind. eapply hspec_weaken.
+      { apply (@clone_all_spec (b_kids b) ((k, VPtr a) :: E) h I).
+        intros x Hx. apply in_or_app. right. eapply kids_in_heap_refs; eauto. }
+      intros _ h1 [I1 [T1 R1]]. cbv beta.
+      apply hspec_bind. eapply hspec_weaken; [apply (@alloc_spec ((k, VPtr a) :: E) h1 k (b_tag b) (b_shape b) (b_kids b) I1)|].
+      intros tv' h2 [I2 [T2 [R2 [Hs [Hn Hkeep]]]]]. cbv beta.
+      (* the old block still has another handle: the drop only decrements *)
+      destruct (T1 _ _ Hb) as [b1 [Hb1 _]].
+      assert (In (k, VPtr a) ((b_kids b ++ (k, VPtr a) :: E) ++ heap_refs h1)) as HI1.
+      { apply in_or_app. left. apply in_or_app. right. left. reflexivity. }
+      destruct (get_ok _ _ I1 HI1) as [b1' [_ [Hb1' [Hf1 [Hrc1 _]]]]].
+      rewrite Hb1 in Hb1'. inversion Hb1'; subst b1'. clear Hb1'.
+      assert (b_rc b1 <> 0%N /\ b_rc b1 <> 1%N) as [Hn0 Hn1].
+      { rewrite Hrc1. rewrite R1. rewrite Hrc in H1.
+        cbn [app] in *. rewrite !occ_app in *. rewrite occ_cons_ptr in *. rewrite Nat.eqb_refl in *.
+        rewrite occ_app in *. split; lia. }
+      pose proof (Hkeep _ _ Hb1) as Hb2.
+      apply hspec_bind. unfold hspec at 1.
+      rewrite (@drop_one_shared h2 k a b1 Hb2 Hf1 Hn0 Hn1).
+      apply hspec_ret.
+      assert (inv_h ([(k, VPtr a)] ++ tv' :: E) h2) as I2'.
+      { eapply inv_h_perm; [|exact I2]. apply perm_swap. }
+      pose proof (@drop_spec (@cons tval (k, VPtr a) (@nil tval)) (tv' :: E) h2 I2') as D. unfold hspec in D.
+      rewrite (@drop_one_shared h2 k a b1 Hb2 Hf1 Hn0 Hn1) in D. destruct D as [I3 T3].
+      split; [exact I3|]. split; [eapply tags_stable_trans; [exact T1|eapply tags_stable_trans; eauto]|].
+      assert (typed h (k, VPtr a)) as Ht.
+      { destruct I as [_ HT]. inversion HT; assumption. }
+      rewrite (typed_kind_alloc Ht Hb) in Hs. subst tv'. split; [|reflexivity].
+      unfold unique_in. cbn [snd].
+      assert (length h1 <> a) as Hne by (apply nth_error_Some_lt in Hb1; lia).
+      exists (mkB (b_tag b) 1 (b_shape b) (b_kids b) false).
+      rewrite nth_error_upd_neq by congruence. auto.
+Qed.
+
+Lemma strong_clone_spec : forall E h tv, inv_h E h -> In tv (E ++ heap_refs h) ->
+  hspec (h_strong_clone mx tv) h (fun tv' h' => inv_h (tv' :: E) h' /\ tags_stable h h').
+Proof.
+  intros E h [k v] I HI. unfold h_strong_clone; cbn [snd fst]. destruct v as [i|a].
+  - apply hspec_ret. split; [|apply tags_stable_refl].
+    pose proof (@clone1_spec E h (k, VInl i) I HI) as C. unfold hspec, h_clone1 in C. simpl in C. tauto.
+  - destruct (get_ok _ _ I HI) as [b [Hg [Hb [Hf [Hrc Hpos]]]]].
+    unfold hspec at 1, hbind at 1. rewrite Hg.
+    apply hspec_bind. eapply hspec_weaken.
+    { apply (@clone_all_spec (b_kids b) E h I).
+      intros x Hx. apply in_or_app. right. eapply kids_in_heap_refs; eauto. }
+    intros _ h1 [I1 [T1 R1]]. cbv beta.
+    eapply hspec_weaken; [apply (@alloc_spec E h1 k (b_tag b) (b_shape b) (b_kids b) I1)|].
+    intros tv' h2 [I2 [T2 _]]. split; [exact I2|eapply tags_stable_trans; eauto].
+Qed.
+
+(* writes *)
+Lemma modify_spec : forall mode tv (f : editf) given E h,
+  inv_h (tv :: given ++ E) h ->
+  (forall sh kids, Permutation (snd (fst (f sh kids)) ++ snd (f sh kids)) (kids ++ given)) ->
+  hspec (h_modify mx mode tv f) h (fun r h' =>
+    inv_h (fst r :: (match snd r with Some rel => rel | None => given end) ++ E) h' /\ tags_stable h h').
+Proof.
+  intros mode tv f given E h I Hf. unfold h_modify.
+  apply hspec_bind.
+  assert (hspec (match mode with WCow => h_make_unique mx tv | _ => hret tv end) h
+            (fun tv' h1 => inv_h (tv' :: given ++ E) h1 /\ tags_stable h h1 /\
+                           (mode = WCow -> unique_in h1 tv'))) as S1.
+  { destruct mode.
+    - eapply hspec_weaken; [apply make_unique_spec; exact I|]. intros tv' h1 [I1 [T1 [U1 _]]]. auto.
+    - apply hspec_ret. split; [exact I|split; [apply tags_stable_refl|discriminate]].
+    - apply hspec_ret. split; [exact I|split; [apply tags_stable_refl|discriminate]]. }
+  eapply hspec_weaken; [exact S1|]. clear S1. intros [k v] h1 [I1 [T1 U1]]. cbn [snd].
+  destruct v as [i|a].
+  - apply hspec_ret. cbn [fst snd]. split; [exact I1|exact T1].
+  - assert (In (k, VPtr a) (((k, VPtr a) :: given ++ E) ++ heap_refs h1)) as HI by (simpl; auto).
+    destruct (get_ok _ _ I1 HI) as [b [Hg [Hb [Hfr [Hrc Hpos]]]]].
+    unfold hspec at 1, hbind at 1. rewrite Hg.
+    destruct (match mode with WIfUnique => negb (N.eqb (b_rc b) 1) | _ => false end) eqn:Eskip.
+    + cbn [fst snd]. split; [exact I1|exact T1].
+    + assert ((match mode with WShared => false | _ => negb (N.eqb (b_rc b) 1) end) = false) as Eu.
+      { destruct mode; [|exact Eskip|reflexivity].
+        destruct (U1 eq_refl) as [b' [Hb' [_ Hr']]]. rewrite Hb in Hb'. inversion Hb'; subst b'.
+        rewrite Hr'. reflexivity. }
+      rewrite Eu. unfold hspec, hbind, h_set, hret. cbn [fst snd].
+      specialize (Hf (b_shape b) (b_kids b)).
+      set (r := f (b_shape b) (b_kids b)) in *.
+      split; [|eapply tags_stable_trans; [exact T1|eapply (@tags_stable_upd h1 a b); [exact Hb|reflexivity]]].
+      eapply inv_h_upd with (b := b) (dm := 0) (dp := 0); eauto.
+      * intros a0. cbn [b_kids].
+        cbn [app]. rewrite !occ_cons. rewrite <- !app_assoc.
+        pose proof (occ_perm a0 Hf) as P. rewrite !occ_app in *. iflia.
+      * cbn [b_freed b_rc]. lia.
+      * cbn [b_kids]. destruct I1 as [_ HT].
+        eapply Forall_typed_sub; [exact HT|].
+        intros x Hx. cbn [app] in Hx. destruct Hx as [<-|Hx]; [left; reflexivity|].
+        assert (In x (snd (fst r) ++ snd r) \/ In x E) as Hx'.
+        { rewrite <- app_assoc in Hx. apply in_app_or in Hx. destruct Hx as [Hx|Hx].
+          - left. apply in_or_app. auto.
+          - apply in_app_or in Hx. destruct Hx as [Hx|Hx]; [right; exact Hx|].
+            left. apply in_or_app. auto. }
+        destruct Hx' as [Hx'|Hx'].
+        -- eapply Permutation_in in Hx'; [|exact Hf]. apply in_app_or in Hx'. destruct Hx' as [Hx'|Hx'].
+           ++ apply in_or_app. right. eapply kids_in_heap_refs; eauto.
+           ++ apply in_or_app. left. right. apply in_or_app. auto.
+        -- apply in_or_app. left. right. apply in_or_app. auto.
+Qed.
+
+(* the theorem's third part, at the level of one write: a write through &mut happens only on a
+   block whose count is 1 *)
+Lemma modify_writes_unique : forall mode tv f h r h',
+  h_modify mx mode tv f h = Ok (r, h') -> mode <> WShared -> snd r <> None ->
+  exists a b, snd (fst r) = VPtr a /\ nth_error h' a = Some b /\ b_rc b = 1%N.
+Proof.
+  intros mode tv f h r h' Hm Hmode Hw. unfold h_modify, hbind in Hm.
+  destruct (match mode with WCow => h_make_unique mx tv | _ => hret tv end h) as [[tv' h1]| |]; try discriminate.
+  destruct tv' as [k v]. cbn [snd] in Hm. destruct v as [i|a].
+  - unfold hret in Hm. inversion Hm; subst. simpl in Hw. congruence.
+  - unfold h_get in Hm. destruct (nth_error h1 a) as [b|] eqn:Hb; try discriminate.
+    destruct (b_freed b); try discriminate.
+    destruct (match mode with WIfUnique => negb (N.eqb (b_rc b) 1) | _ => false end).
+    + unfold hret in Hm. inversion Hm; subst. simpl in Hw. congruence.
+    + destruct (match mode with WShared => false | _ => negb (N.eqb (b_rc b) 1) end) eqn:E.
+      * unfold hfail in Hm. discriminate.
+      * unfold h_set, hret in Hm. inversion Hm; subst. cbn [fst snd].
+        exists a. eexists. split; [reflexivity|]. split.
+        -- apply nth_error_upd_eq. eapply nth_error_Some_lt; eauto.
+        -- cbn [b_rc]. destruct mode; try congruence;
+           destruct (N.eqb_spec (b_rc b) 1); simpl in E; congruence.
+Qed.
+
+Lemma take_or_clone_spec : forall tv sel E h,
+  inv_h (tv :: E) h -> (forall sh kids, incl (sel sh kids) kids) ->
+  hspec (h_take_or_clone mx tv sel) h (fun r h' => inv_h (snd r ++ E) h' /\ tags_stable h h').
+Proof.
+  intros [k v] sel E h I Hsel. unfold h_take_or_clone; cbn [snd]. destruct v as [i|a].
+  - apply hspec_ret. cbn [snd app]. split; [eapply inv_h_drop_inl; eauto|apply tags_stable_refl].
+  - assert (In (k, VPtr a) (((k, VPtr a) :: E) ++ heap_refs h)) as HI by (simpl; auto).
+    destruct (get_ok _ _ I HI) as [b [Hg [Hb [Hfr [Hrc Hpos]]]]].
+    unfold hspec at 1, hbind at 1. rewrite Hg.
+    destruct (N.eqb_spec (b_rc b) 1) as [H1|H1].
+    + unfold hspec, hbind, h_set, hret. cbn [snd].
+      split; [|eapply (@tags_stable_upd h a b); [exact Hb|reflexivity]].
+      eapply inv_h_upd with (b := b) (dm := 1) (dp := 0); eauto.
+      * intros a0. cbn [b_kids freed_block app]. rewrite app_nil_r.
+        rewrite occ_cons_ptr. rewrite !occ_app. iflia.
+      * simpl. lia.
+      * cbn [b_kids freed_block]. rewrite app_nil_r. destruct I as [_ HT].
+        eapply Forall_typed_sub; [exact HT|].
+        intros x Hx. apply in_app_or in Hx. destruct Hx as [Hx|Hx].
+        -- apply in_or_app. right. eapply kids_in_heap_refs; eauto.
+        -- apply in_or_app. left. right. exact Hx.
+    + apply hspec_bind. eapply hspec_weaken.
+      { apply (@clone_all_spec (sel (b_shape b) (b_kids b)) ((k, VPtr a) :: E) h I).
+        intros x Hx. apply in_or_app. right. eapply kids_in_heap_refs; eauto. apply (Hsel _ _ _ Hx). }
+      intros _ h1 [I1 [T1 R1]]. cbv beta.
+      apply hspec_bind. eapply hspec_weaken.
+      { apply (@drop_spec (@cons tval (k, VPtr a) (@nil tval)) (sel (b_shape b) (b_kids b) ++ E) h1).
+        eapply inv_h_perm; [|exact I1]. cbn [app]. symmetry. apply Permutation_middle. }
+      intros _ h2 [I2 T2]. cbv beta. apply hspec_ret. cbn [snd].
+      split; [exact I2|eapply tags_stable_trans; eauto].
+Qed.
+
+Lemma clone_kids_spec : forall tv sel E h,
+  inv_h E h -> In tv (E ++ heap_refs h) -> (forall sh kids, incl (sel sh kids) kids) ->
+  hspec (h_clone_kids mx tv sel) h (fun r h' =>
+    inv_h (snd r ++ E) h' /\ tags_stable h h' /\ heap_refs h' = heap_refs h).
+Proof.
+  intros [k v] sel E h I HI Hsel. unfold h_clone_kids; cbn [snd]. destruct v as [i|a].
+  - apply hspec_ret. cbn [snd app]. split; [exact I|split; [apply tags_stable_refl|reflexivity]].
+  - destruct (get_ok _ _ I HI) as [b [Hg [Hb [Hfr [Hrc Hpos]]]]].
+    unfold hspec at 1, hbind at 1. rewrite Hg.
+    apply hspec_bind. eapply hspec_weaken.
+    { apply (@clone_all_spec (sel (b_shape b) (b_kids b)) E h I).
+      intros x Hx. apply in_or_app. right. eapply kids_in_heap_refs; eauto. apply (Hsel _ _ _ Hx). }
+    intros _ h1 [I1 [T1 R1]]. cbv beta. apply hspec_ret. cbn [snd]. auto.
+Qed.
+
+Lemma clone_grandkids_spec : forall tv E h,
+  inv_h E h -> In tv (E ++ heap_refs h) ->
+  hspec (h_clone_grandkids mx tv) h (fun l h' =>
+    inv_h (l ++ E) h' /\ tags_stable h h' /\ heap_refs h' = heap_refs h).
+Proof.
+  intros [k v] E h I HI. unfold h_clone_grandkids; cbn [snd]. destruct v as [i|a].
+  - apply hspec_ret. cbn [app]. split; [exact I|split; [apply tags_stable_refl|reflexivity]].
+  - destruct (get_ok _ _ I HI) as [b [Hg [Hb [Hfr [Hrc Hpos]]]]].
+    unfold hspec at 1, hbind at 1. rewrite Hg.
+    destruct (b_kids b) as [|kid rest] eqn:Ek.
+    + apply hspec_ret. cbn [app]. split; [exact I|split; [apply tags_stable_refl|reflexivity]].
+    + apply hspec_bind. eapply hspec_weaken.
+      { apply (@clone_kids_spec kid (fun _ l => l) E h I).
+        - apply in_or_app. right. eapply kids_in_heap_refs; eauto. rewrite Ek. left. reflexivity.
+        - intros sh kids x Hx. exact Hx. }
+      intros r h1 [I1 [T1 R1]]. cbv beta. apply hspec_ret. auto.
+Qed.
+
+(* thunk_tag_inv at work: the unchecked decode of a Thunk-typed handle finds a thunk block *)
+Lemma thunk_data_spec : forall tv E h, inv_h E h -> In tv (E ++ heap_refs h) -> fst tv = KThunk ->
+  exists b, h_thunk_data tv h = Ok (b, h) /\ b_tag b = TThunk.
+Proof.
+  intros [k v] E h I HI Hk. simpl in Hk. subst k.
+  assert (typed h (KThunk, v)) as Ht.
+  { destruct I as [_ HT]. rewrite Forall_forall in HT. auto. }
+  destruct v as [i|a]; [discriminate Ht|].
+  destruct (get_ok _ _ I HI) as [b [Hg [Hb [Hfr _]]]].
+  destruct Ht as [b' [Hb' Hk]]. rewrite Hb in Hb'. inversion Hb'; subst b'. simpl in Hk.
+  exists b. unfold h_thunk_data, hbind. rewrite Hg. rewrite Hk. split; [reflexivity|].
+  destruct (b_tag b); simpl in Hk; congruence.
+Qed.
+
+Lemma retype_thunk_spec : forall tv E h, inv_h (tv :: E) h ->
+  exists r, h_retype_thunk tv h = Ok (r, h) /\ inv_h (fst r :: E) h.
+Proof.
+  intros [k v] E h I.
+  assert (In (k, v) (((k, v) :: E) ++ heap_refs h)) as HI by (simpl; auto).
+  destruct (read_spec _ I HI) as [o [Hr Ho]].
+  unfold h_retype_thunk, hbind. rewrite Hr. destruct o as [b|].
+  - destruct Ho as [a [Hs [Hb Hfr]]]. simpl in Hs. subst v.
+    destruct (tag_eqb (b_tag b) TThunk) eqn:Et.
+    + eexists. split; [reflexivity|]. cbn [fst snd].
+      eapply inv_h_retype; [exact I|]. exists b. split; [exact Hb|exact Et].
+    + eexists. split; [reflexivity|exact I].
+  - eexists. split; [reflexivity|exact I].
+Qed.
+
+End Prims.
